@@ -487,7 +487,7 @@ class Body:
             if t["k"] != "switch" or not self.dominates(s, bb) or s == bb:
                 continue
             tg = self.succ[s]
-            r = [bb in self.reachable(x) for x in tg]
+            r = [bb in self.reachable(x, avoid={s}) for x in tg]
             if any(r) and not all(r):
                 out.append(s)
         return out
